@@ -155,7 +155,7 @@ def run_cases(scenario, ch, use_python_plugin=True, want_calls=False):
             outs.append(out)
             fns.append(lambda ti=ti, n=n, out=out: g["tmain"](ti + 1, n, out))
         ctx["outs"] = outs
-        host.run_threads(k, fns)
+        host.run_threads(k, fns, names=scenario.get("thread_names"))
         common.wait_delivery(k, w, 5.0 if any(t.get("limits") for t in scenario["tps"]) else 300.0)   # stalled delivery workers are blocked with a deadline: let simulated time pass
         ctx["end_ns"] = k.now_ns
         # ---------------------------------------------------------------- pair captures with delivered snapshots
